@@ -21,7 +21,7 @@ if ! (cd "$D" && git apply --whitespace=nowarn "$PATCHF" 2>/dev/null); then
   fi
 fi
 for P in "$@"; do
-  out="$("$HERE/bin/h5sa" -prop "$P" -repo "$D" -verif "$HERE" -no-evidence 2>&1 | grep -v '^WARNING')"; rc=$?
+  out="$("${H5SA_BIN:-$HERE/bin/h5sa}" -prop "$P" -repo "$D" -verif "$HERE" -no-evidence 2>&1 | grep -v '^WARNING')"; rc=$?
   echo "--- $P: $(echo "$out" | grep -c '^FINDING') finding(s) $(echo "$out" | grep -c 'CHECKER-ERROR') error(s)"
   echo "$out" | grep "^FINDING\|CHECKER-ERROR" | cut -c1-${EVCUT:-260} | head -${EVHEAD:-6}
 done
